@@ -450,6 +450,11 @@ func (h *H) fixed() {
 	h.directCase("fixed-F12-d", 0, []dop{{kind: "stub", arg: "0"}, {kind: "setreq", arg: "1"}, {kind: "seq", seq: csi("", 'R', p(3), p(7))}, {kind: "seq", seq: csi("", 'R', p(3), p(7))},
 		{kind: "setreq", arg: "1"}, {kind: "seq", seq: csi("", 'R', p(4), p(8))}, {kind: "drain"},
 		{kind: "setreq", arg: "1"}, {kind: "seq", seq: csi("", 'R', p(3))}, {kind: "setreq", arg: "1"}, {kind: "seq", seq: csi("", 'R', p(5), p(9))}, {kind: "drain"}})
+	// a timed-out cursor query must leave no request behind: Shift+F3 (CSI 1;2 R) typed afterwards is a
+	// key press, a late answer too, and the next answered query returns the fresh position
+	h.queryCase("fixed-cpr-timeout", 0, []qop{{kind: "cursor", a: []int{3, 7}, mode: "silent"}, {kind: "key", a: []int{1, 2}},
+		{kind: "cursor", a: []int{5, 9}, mode: "reply"}, {kind: "key", a: []int{3, 7}}, {kind: "cursor", a: []int{6, 1}, mode: "silent"},
+		{kind: "key", a: []int{6, 1}}, {kind: "key", a: []int{1, 2}}, {kind: "cursor", a: []int{8, 8}, mode: "reply"}})
 	// paste marks
 	if k, ok := keyReport("a"); ok {
 		h.streamCase("fixed-paste", 0, 0, []report{{enc: "paste start"}, k, k, {enc: "paste end"}, k}, true, "\x1b[200~aa\x1b[201~a")
